@@ -73,6 +73,12 @@ var dimsB = []dimension{
 		{"3", true, func(p *corev1.Pod) {
 			p.Spec.Containers = append([]corev1.Container{{Name: "aaa-first", Image: "registry.example/first:3"}}, p.Spec.Containers...)
 			p.Spec.Containers = append(p.Spec.Containers, corev1.Container{Name: "zzz-last", Image: "registry.example/last:3", Args: []string{"x"}})
+			// this shape is also the controller-created one (generateName + ReplicaSet owner => DeploymentMeta differs)
+			yes := true
+			p.Name = ""
+			p.GenerateName = "c19-6b8f7d5c9-"
+			p.Labels["pod-template-hash"] = "6b8f7d5c9"
+			p.OwnerReferences = []metav1.OwnerReference{{APIVersion: "apps/v1", Kind: "ReplicaSet", Name: "c19-6b8f7d5c9", Controller: &yes, UID: "u"}}
 		}},
 	}},
 	{"init", []option{
@@ -160,7 +166,7 @@ var dimsB = []dimension{
 	}},
 	{"prometheus", []option{
 		{"none", false, nop},
-		{"scrape", false, func(p *corev1.Pod) {
+		{"scrape", true, func(p *corev1.Pod) {
 			p.Annotations["prometheus.io/scrape"] = "true"
 			p.Annotations["prometheus.io/port"] = "9090"
 			p.Annotations["prometheus.io/path"] = "/metrics"
@@ -176,16 +182,6 @@ var dimsB = []dimension{
 		{"hold", true, anno("proxy.istio.io/config", "holdApplicationUntilProxyStarts: true")},
 		{"tproxy", true, anno("sidecar.istio.io/interceptionMode", "TPROXY")},
 		{"no-intercept", true, anno("sidecar.istio.io/interceptionMode", "NONE")},
-	}},
-	{"owner", []option{
-		{"bare-pod", false, nop},
-		{"replicaset", true, func(p *corev1.Pod) {
-			yes := true
-			p.Name = ""
-			p.GenerateName = "c19-6b8f7d5c9-"
-			p.Labels["pod-template-hash"] = "6b8f7d5c9"
-			p.OwnerReferences = []metav1.OwnerReference{{APIVersion: "apps/v1", Kind: "ReplicaSet", Name: "c19-6b8f7d5c9", Controller: &yes, UID: "u"}}
-		}},
 	}},
 }
 
@@ -240,8 +236,8 @@ func buildPod(c caseB) (*corev1.Pod, bool, error) {
 	}
 	for _, d := range dimsB {
 		name, ok := c.Choice[d.name]
-		if !ok {
-			return nil, false, fmt.Errorf("case lacks dimension %s", d.name)
+		if !ok { // replay recorded before the dimension existed: its first option is the neutral one
+			name = d.opts[0].name
 		}
 		found := false
 		for _, o := range d.opts {
@@ -454,7 +450,7 @@ func (r *runnerB) check(res *engine.Result, c caseB, recheck, verbose bool) {
 func TestC19b(t *testing.T) {
 	env := engine.GetEnv()
 	res := engine.NewResult("C19", "b-idempotence")
-	res.Rule = "every combination of the pod-spec alphabet (template annotation, user containers, init / native-sidecar containers, probes and rewrite, user-written istio-proxy, overrides annotation, volumes, hostNetwork, prometheus annotations, status port annotation, interception / hold settings, owner, native-sidecar mode) submitted to the real /inject handler configured from the shipped chart, the patch applied, the result submitted again; non-trivial = the webhook actually injected, so re-injection and preservation are exercised"
+	res.Rule = "every combination of the pod-spec alphabet (template annotation, user containers, init / native-sidecar containers, probes and rewrite, user-written istio-proxy, overrides annotation, volumes, hostNetwork, prometheus annotations, status port annotation, interception / hold settings, native-sidecar mode) submitted to the real /inject handler configured from the shipped chart, the patch applied, the result submitted again; non-trivial = the webhook actually injected, so re-injection and preservation are exercised"
 	defer res.Write(t, env)
 	s := loadShipped(t)
 	r := &runnerB{t: t, wh: newWebhook(t, s, s.config(t))}
